@@ -4,6 +4,7 @@ import (
 	"bytes"
 	"encoding/json"
 	"fmt"
+	"strings"
 
 	"verif/internal/core"
 )
@@ -24,7 +25,9 @@ type c03Case struct {
 	Seq  int `json:"seq,omitempty"`
 	SeqW int `json:"seqw,omitempty"` // 1-based index into the write configurations (0 = all)
 	// Big: one table with values beyond every internal size class (pool buckets, buffers): 600 000 and 2^20+5 bytes
-	Big    bool   `json:"big,omitempty"`
+	Big bool `json:"big,omitempty"`
+	// Legacy > 0: fixture table Legacy-1 of the repository (written by an earlier version), read with every loader
+	Legacy int    `json:"legacy,omitempty"`
 	Sample string `json:"-"`
 }
 
@@ -88,9 +91,13 @@ func (c c03) Run(ctx *core.Ctx) error {
 		}
 	}
 	cases = append(cases, core.J(c03Case{Big: true}))
+	for fi := range legacyTables() {
+		cases = append(cases, core.J(c03Case{Legacy: fi + 1}))
+	}
+	ctx.Ev.Bounds["legacy_fixture_tables"] = len(legacyTables())
 	ctx.Ev.Bounds["sequential_key_tables"] = sizes
 	ctx.Ev.Bounds["large_value_table"] = "a=600000 incompressible bytes, ab=v, b=2^20+5 incompressible bytes, c=nil; stream writer x data compression {none, snappy} and skip-list writer, loaders {slice, disk}"
-	ctx.Ev.Rule = "every table = ascending subset of 6 keys (\"\", a, ab, b, the marker bytes, a 600-byte key) with values from {nil, empty, v, ..91, marker+00+ff*10, 5000 incompressible bytes} up to the size bound (one size larger with 3 values), written by the stream writer (buffers 5 and 4096) and the skip-list writer, x compression pairs x bloom sizing {1, default}, opened with {slice, skip-list, map[4]byte, disk} loaders x read buffers {5,4096}; probes: Contains/Get for 11 keys (present, absent, below min, above max, between), Scan, ScanStartingAt(each), ScanRange(all pairs, lower>upper must fail), metadata. distinct = (table, write config, read config); non-trivial = table has >= 1 record"
+	ctx.Ev.Rule = "every table = ascending subset of 6 keys (\"\", a, ab, b, the marker bytes, a 600-byte key) with values from {nil, empty, v, ..91, marker+00+ff*10, 5000 incompressible bytes} up to the size bound (one size larger with 3 values), written by the stream writer (buffers 5 and 4096) and the skip-list writer, x compression pairs x bloom sizing {1, default}, opened with {slice, skip-list, map[4]byte, disk} loaders x read buffers {5,4096}; plus every legacy fixture table of the repository x 4 loaders x read buffer/hash-check options against its documented content; probes: Contains/Get for 11 keys (present, absent, below min, above max, between), Scan, ScanStartingAt(each), ScanRange(all pairs, lower>upper must fail), metadata. distinct = (table, write config, read config); non-trivial = table has >= 1 record"
 	ctx.Ev.Bounds["tables_full_value_alphabet"] = nfull
 	ctx.Ev.Bounds["tables_reduced_value_alphabet"] = len(cases) - nfull
 	ctx.Ev.Bounds["max_size_full"] = maxFull
@@ -120,6 +127,9 @@ func (c c03) Case(w *core.WCtx, payload json.RawMessage) core.Result {
 		}
 	}
 	var r core.Result
+	if cs.Legacy > 0 {
+		return c03Legacy(cs)
+	}
 	sorted := cs.KVs
 	var seqProbes [][]byte
 	if cs.Seq > 0 {
@@ -286,6 +296,80 @@ func (c c03) Case(w *core.WCtx, payload json.RawMessage) core.Result {
 	r.Outcome = fmt.Sprintf("n=%d ok=%v", len(sorted), len(r.Viol) == 0)
 	if len(sorted) == 2 && bytes.Equal(sorted[0].K, []byte("a")) && len(sorted[1].K) == 3 && sorted[0].V == nil && len(sorted[1].V) == 3 {
 		r.Sample = string(core.J(map[string]any{"table": kvsStr(sorted), "write_configs": len(wcfgs), "read_configs": len(rcfgs), "probe_keys": len(probes)}))
+	}
+	return r
+}
+
+// c03Legacy: a table written by an earlier version of the library answers like the sorted map of its (documented)
+// content under every loader, read buffer and hash-check option.
+func c03Legacy(cs c03Case) core.Result {
+	var r core.Result
+	fx := legacyTables()[cs.Legacy-1]
+	var probes [][]byte
+	probes = append(probes, []byte{})
+	for _, e := range fx.KVs {
+		probes = append(probes, e.K)
+	}
+	lo := uint32(fx.KVs[0].K[3])
+	hi := uint32(fx.KVs[len(fx.KVs)-1].K[3])
+	probes = append(probes, be32(lo-1), be32(hi+1), be32(hi+2), []byte{0, 0, 0}, []byte{0xff})
+	if len(fx.KVs) == 2 {
+		probes = append(probes, be32(lo+1))
+	}
+	for _, l := range []string{"slice", "skiplist", "map4", "disk"} {
+		for _, rc := range []tblR{{Loader: l, RBuf: 4096}, {Loader: l, RBuf: 5}, {Loader: l, RBuf: 4096, VerifyOnRead: true}, {Loader: l, RBuf: 4096, SkipOnLoad: true}} {
+			func() {
+				viol := func(f string, a ...any) {
+					if len(r.Viol) < 8 {
+						rc2 := rc
+						r.Viol = append(r.Viol, core.Violation{Desc: fmt.Sprintf("legacy table %s read=%+v: %s", fx.Name, rc, fmt.Sprintf(f, a...)), Case: core.J(c03Case{Legacy: cs.Legacy, OnlyR: &rc2})})
+					}
+				}
+				if cs.OnlyR != nil && *cs.OnlyR != rc {
+					return
+				}
+				defer func() {
+					if p := recover(); p != nil {
+						viol("panic while reading: %v", p)
+					}
+				}()
+				rd, err := openTable(fx.Dir(), rc)
+				if err != nil {
+					if l == "disk" && strings.Contains(err.Error(), "unsupported on files with version lower than v2") {
+						return
+					}
+					viol("open failed: %v", err)
+					return
+				}
+				defer rd.Close()
+				r.Traces++
+				r.Keys = append(r.Keys, core.HashKey("legacy", fx.Name, fmt.Sprint(rc)))
+				pp := probes
+				if l == "map4" {
+					pp = nil
+					for _, p := range probes {
+						if len(p) <= 4 {
+							pp = append(pp, p)
+						}
+					}
+				}
+				for _, b := range probeSortedMap(rd, fx.KVs, pp, l, &r.Evals) {
+					// the on-disk index needs SeekNext, documented as unsupported for record files below version 2
+					if l == "disk" && strings.Contains(b.Desc, "unsupported on files with version lower than v2") {
+						if r.Extra == nil {
+							r.Extra = map[string]int64{}
+						}
+						r.Extra["disk index refused on a version-1 index file (documented)"]++
+						continue
+					}
+					viol("%s", b.Desc)
+				}
+			}()
+		}
+	}
+	r.Outcome = fmt.Sprintf("legacy ok=%v", len(r.Viol) == 0)
+	if cs.Legacy == 1 {
+		r.Sample = string(core.J(map[string]any{"legacy_fixture": fx.Name, "content": kvsStr(fx.KVs), "probe_keys": len(probes)}))
 	}
 	return r
 }
